@@ -133,6 +133,12 @@ def _binary_programs():
     # two repartitions of one frame in one graph (upwards: split keys; downwards)
     out.append(("two_reparts_up", lambda t: _concat([_rep(t["L"], 5), _rep(t["L"], 7)]), False, "repartition"))
     out.append(("two_reparts_mixed", lambda t: _concat([_rep(t["L"], 2), _rep(t["L"], 6)])[["a"]], False, "repartition"))
+    # different partition selections of ONE source combined again (no pandas meaning: family "partitions")
+    out.append(("concat_parts_axis1", lambda t: _concat([_parts(t["L"], [0, 1])[["a"]], _parts(t["L"], [1]).b], axis=1), False, "partitions"))
+    out.append(("concat_parts_axis0", lambda t: _concat([_parts(t["L"], [0, 1])[["a", "b"]], _parts(t["L"], [2, 0])[["b", "a"]]]), False, "partitions"))
+    out.append(("add_parts_broadcast", lambda t: _parts(t["L"], [0, 1]).a + _parts(t["L"], [1]).a.sum(), False, "partitions"))
+    out.append(("parts_of_elemwise", lambda t: _parts(t["L"].assign(z=t["L"].a + 1) + 1, [2, 0]), False, "partitions"))
+    out.append(("parts_of_shuffle", lambda t: _parts(_shuf(t["L"]), [1]) , True, "partitions"))
     out.append(("two_shifts", lambda t: t["L"].a.shift(1) + t["L"].a.shift(2), False, "overlap"))
     out.append(("two_diffs_frame", lambda t: t["L"][["a", "b"]].diff(1) + t["L"][["a", "b"]].shift(1), False, "overlap"))
     # an in-place style update whose input partition has a second consumer in the same graph
@@ -146,6 +152,17 @@ def _binary_programs():
 
 def _opt(x):
     return x.optimize() if _dd(x) else x
+
+
+def _parts(x, P):
+    if not _dd(x):
+        return x
+    P = [p for p in P if p < x.npartitions] or [0]
+    return x.partitions[P]
+
+
+def _shuf(x):
+    return x.shuffle("b", shuffle_method="tasks") if _dd(x) else x
 
 
 def _rep(x, n):
@@ -254,7 +271,7 @@ def enumerate_programs(max_depth=2):
                 continue  # asking for index labels that dask-expr leaves unspecified
             progs.append(Program(name, fn, unordered, tuple(o.family for o in chain) + (term.family,), len(chain) + 1, noindex, pandas_ok, order_ok))
     for name, fn, unordered, fam in _binary_programs():
-        progs.append(Program(name, fn, unordered, (fam,), 2, fam == "merge"))
+        progs.append(Program(name, fn, unordered, (fam,), 2, fam == "merge", pandas_ok=(fam != "partitions")))
     return progs
 
 
